@@ -125,6 +125,42 @@ def main():
     for i in bad[:5]:
         c.cov.setdefault("model_impl_mismatches", []).append({"case": cases[keep[i]], "impl": recs[keep[i]]["res"]})
     c.sample({"case": cases[0], "result": recs[0]["res"]}); c.sample({"case": cases[1], "result": recs[1]["res"]})
+    # equivalences an application declares ON prefixed units ((kilo a) = 8 b; (milli c) = 2 (kilo d); a named unit that is prefixed underneath,
+    # byte = 1 octet): the value of every operation follows the declared sizes, whichever side carries which prefix
+    pdefine = [["vfqa", [[1, 1]]], ["vfqb", [[1, 1]]], ["vfqc", [[3, 1]]], ["vfqd", [[3, 1]]]]
+    pdecls = [[[["kilo", "vfqa", 1]], ["int", "8", "1"], [[None, "vfqb", 1]]], [[["milli", "vfqc", 1]], ["int", "2", "1"], [["kilo", "vfqd", 1]]]]
+    psize = {"vfqa": Fraction(8, 1000), "vfqb": Fraction(1), "vfqc": Fraction(2000 * 1000), "vfqd": Fraction(1)}
+    pval = {None: Fraction(1), "kilo": Fraction(1000), "milli": Fraction(1, 1000), "kibi": Fraction(1024)}
+    pc = []
+    for ua, ub in (("vfqa", "vfqb"), ("vfqb", "vfqa"), ("vfqc", "vfqd"), ("vfqd", "vfqc"), ("vfqa", "vfqa")):
+        for pa in (None, "kilo", "milli"):
+            for pb in (None, "kilo", "kibi"):
+                for x, y in ((3, 5), (1, 125), (8, 1), (0, 2), (-4, 7)):
+                    a_ = {"m": ["int", str(x), "1"], "u": [[pa, ua, 1]]}; b_ = {"m": [rng.choice(["int", "float"]), str(y), "1"], "u": [[pb, ub, 1]]}
+                    for op in ("add", "sub", "eq", "lt"):
+                        pc.append({"op": op, "a": a_, "b": b_})
+                    pc.append({"op": "in_unit", "a": a_, "b": b_["u"]})
+    if c.tier == "quick": pc = rng.sample(pc, 400)
+    pr = impl("convsys_worker.py", {"systems": True, "define": pdefine, "decls": pdecls, "cases": pc})["results"]
+    for cs, res in zip(pc, pr):
+        c.count(["declared-on-prefixed", cs], nontrivial=True)
+        (pa, ua, _), = cs["a"]["u"]
+        (pb, ub, _), = cs["b"]["u"] if cs["op"] != "in_unit" else cs["b"]
+        va = Fraction(int(cs["a"]["m"][1]), int(cs["a"]["m"][2])) * pval[pa] * psize[ua]
+        repl = {"declared": ["(kilo vfqa).equals(8 vfqb)", "(milli vfqc).equals(2 kilo vfqd)"], "case": cs, "implementation": {k: res.get(k) for k in ("m", "bool", "err")}}
+        if "err" in res or "setup_err" in res:
+            c.violation(f"raises:{cs['op']}:{res.get('err') or res.get('setup_err')}", f"{cs['op']} of convertible quantities raised {res.get('err') or res.get('setup_err')} (equivalence declared on a prefixed unit)", repl); continue
+        if cs["op"] == "in_unit":
+            want = va / (pval[pb] * psize[ub]); got = Fraction(int(res["m"][1]), int(res["m"][2]))
+            if abs(got - want) > Fraction(1, 10**9) * max(abs(want), Fraction(1, 10**12)): c.violation("sivalue:in_unit", f"converted to {float(got)}, the declared sizes give {float(want)}", repl)
+            continue
+        vb = Fraction(int(cs["b"]["m"][1]), int(cs["b"]["m"][2])) * pval[pb] * psize[ub]
+        if cs["op"] in ("add", "sub"):
+            want = (va + vb if cs["op"] == "add" else va - vb) / (pval[pa] * psize[ua]); got = Fraction(int(res["m"][1]), int(res["m"][2]))
+            if abs(got - want) > Fraction(1, 10**9) * max(abs(want), abs(va / (pval[pa] * psize[ua])), Fraction(1, 10**12)): c.violation(f"sivalue:{cs['op']}", f"{cs['op']} gives {float(got)}, the declared sizes give {float(want)}", repl)
+        elif va != vb and abs(va - vb) > Fraction(1, 10**6) * max(abs(va), abs(vb)):
+            want = {"eq": False, "lt": va < vb}[cs["op"]]
+            if res.get("bool") != want: c.violation(f"truth:{cs['op']}", f"{cs['op']} is {res.get('bool')} but the declared sizes give {float(va)} and {float(vb)}", repl)
     c.finish(rule="pairs of quantities in different convertible units / prefixes (mixed SI/IEC included) of one dimension for + - == < <= >, "
                   "of any dimensions for * / **, int/float/Decimal magnitudes; the SI value of every result (exact rational oracle solved from "
                   "the declarations) is compared with the operation on the operands' SI values at 1e-9; comparisons within 1e-7 of a tie are "
